@@ -13,7 +13,7 @@ EVIDENCE = {
                   "SubspaceTensor.general_point", "operators.is_perpendicular/is_coplanar/is_collinear/is_concurrent/is_cocircular", "SubspaceTensor.is_parallel"],
     "bounds": "2-D lines and points with free real coordinates (line not at infinity where the construction needs a finite line; the point on / off the line are separate paths); "
               "3-D planes with free reals; single objects",
-    "outside": "3-D lines (SVD-based basis_matrix; nested complex radicals for mirror), angle_bisectors (complex square roots; thorough), collections (C04), rounding",
+    "outside": "3-D lines (SVD-based basis_matrix; nested complex radicals for mirror), angle_bisectors (complex square roots), collections (C04), rounding",
     "assumptions": ["ProjectiveTensor.__eq__/is_multiple: lemma proved in C20", "np.linalg.qr: Gram-Schmidt contract stub for PlaneTensor.basis_matrix"],
 }
 
